@@ -30,11 +30,12 @@ const (
 	FDumpNoBackfill // Dump with FeedNoBackfill: nothing to deliver, ends at once
 	FMultiDump      // Dump over both collections through Bucket.StartDCPFeed: the coalesced done channel closes
 	FCheckpoint     // backfill + live with a checkpoint prefix: when the store shuts down under it, its last checkpoint write fails
+	FPreTerminated  // live feed whose terminator is closed already when it is started: it must report done like any other
 	FMultiPartial   // multi-collection feed one of whose parts cannot start (unreadable checkpoint document in Y): the call fails, its done channel must still close
 	NFeedKinds
 )
 
-var feedKindNames = []string{"live", "backfill+live", "dump", "multi-collection", "dump-nobackfill", "multi-collection-dump", "checkpointed", "multi-collection-partial"}
+var feedKindNames = []string{"live", "backfill+live", "dump", "multi-collection", "dump-nobackfill", "multi-collection-dump", "checkpointed", "terminator-closed-before-start", "multi-collection-partial"}
 
 func isDumpKind(k int) bool { return k == FDump || k == FDumpNoBackfill || k == FMultiDump }
 
@@ -139,6 +140,13 @@ func (s *FeedScenario) Run(tmp string, r *rng.R) {
 			err = colls[f.handle][f.coll].StartDCPFeed(ctx, args, f.cb, nil)
 		case FBackfillLive:
 			args.Backfill = 0
+			err = colls[f.handle][f.coll].StartDCPFeed(ctx, args, f.cb, nil)
+		case FPreTerminated:
+			close(f.term)
+			f.termed, f.expectEnded = true, true
+			if i%2 == 1 {
+				args.Backfill = 0
+			}
 			err = colls[f.handle][f.coll].StartDCPFeed(ctx, args, f.cb, nil)
 		case FCheckpoint:
 			args.Backfill, args.CheckpointPrefix = sgbucket.FeedResume, fmt.Sprintf("cp:f%d", i)
